@@ -205,6 +205,10 @@ def _canonical_from_trace(rule):
 
     tr = [e for e in (rule.__dict__.get(TRACE_ATTR) or []) if e[2] == "ok" and e[0] != "assert_applies"]
     h = [e[0] for e in tr]
+    # a kept rule object whose SUBJECT is re-targeted afterwards (rule.modules_that().are_named(next), the loop over modules
+    # with one rule object): verb, direction, except and 'anything' stay what the chain said
+    while len(h) >= 6 and h[-2] == "modules_that" and h[-1] in A.RULE_FILTERS:
+        h = h[:-2]
     ok = (
         len(h) in (4, 5)
         and h[0] == "modules_that"
@@ -450,6 +454,7 @@ def judge_module_rule(ev: Event) -> None:
             _judge_anything_batch(ev, mods, imps)
         if why == "related-subjects-objects" and ev.outcome in ("pass", "fail"):
             _judge_subject_inside_object(ev, mods, imps)
+            _judge_private_internals(ev, mods, imps)
         return
     res = rrule.decide(mods, imps, cfg)
     if res is None:
@@ -501,6 +506,28 @@ def judge_module_rule(ev: Event) -> None:
                     "neg_expected": sorted(map(repr, exp_neg)),
                 },
             )
+
+
+def _judge_private_internals(ev: Event, mods, imps) -> None:
+    """'sub modules of X should (not) import / be imported by anything except X' - the internals of X are private to X.
+    Subject and object name the same module, so the pair is outside the pairwise-unrelated domain, but 'something else'
+    is unambiguous here: X itself is the excepted object under either reading of 'inside the subject', and both readings of
+    R-RULE agree (12 000 probe cases on the unchanged library, none ambiguous, none different)."""
+    cfg = ev.cfg
+    subs = [tuple(x) for x in cfg["subs"]]
+    objs = [tuple(x) for x in cfg["objs"]]
+    if cfg.get("anything") or not cfg["exc"] or cfg["verb"] not in ("should", "should_not") or len(subs) != 1 or len(objs) != 1:
+        return
+    if subs[0][0] != "sub" or objs[0] != ("named", subs[0][1]):
+        return
+    res = rrule.decide(mods, imps, cfg)
+    if res is None:
+        HUB.acc.count("ambiguous_skipped")
+        return
+    HUB.acc.count("c01_judged_private_internals_idiom")
+    got_ok = ev.outcome == "pass"
+    if "C01" in HUB.judges and got_ok != res[0]:
+        HUB.violation("C01", f"verdict:{rrule.shape(cfg)}:internals-private-to-their-package:{'false-pass' if got_ok else 'false-fail'}", f"'sub modules of X {cfg['verb']} ... anything except X' {'passed' if got_ok else 'failed'} but the documented semantics say {'holds' if res[0] else 'violated'}", {"cfg": {k: v for k, v in cfg.items() if k != 'odd_formats'}, "mods": sorted(mods), "imps": sorted(imps), "message": ev.message})
 
 
 def _judge_subject_inside_object(ev: Event, mods, imps) -> None:
